@@ -36,14 +36,20 @@ use std::{
     ops::{Deref, DerefMut},
     sync::{
         atomic::{AtomicIsize, AtomicUsize, Ordering},
-        Arc, Mutex, Weak,
+        Arc, Weak,
     },
     time::Duration,
 };
 
 #[cfg(deadpool_verif)]
 use deadpool_runtime::verif;
-use tokio::sync::{Semaphore, TryAcquireError};
+#[cfg(deadpool_verif)]
+use crate::verif_sync::{Mutex, Semaphore};
+#[cfg(not(deadpool_verif))]
+use std::sync::Mutex;
+#[cfg(not(deadpool_verif))]
+use tokio::sync::Semaphore;
+use tokio::sync::TryAcquireError;
 
 pub use crate::Status;
 
@@ -92,7 +98,7 @@ impl<T> Drop for Object<T> {
             if let Some(pool) = self.pool.upgrade() {
                 #[cfg(deadpool_verif)]
                 verif::lock_point("unmanaged.object_drop.lock", || {
-                    verif::is_locked(&pool.queue)
+                    verif::is_locked(pool.queue.raw())
                 });
                 {
                     let mut queue = pool.queue.lock().unwrap();
@@ -217,7 +223,7 @@ impl<T> Pool<T> {
         verif::point("unmanaged.get.permit");
         #[cfg(deadpool_verif)]
         verif::lock_point("unmanaged.get.pop.lock", || {
-            verif::is_locked(&inner.queue)
+            verif::is_locked(inner.queue.raw())
         });
         let obj = {
             let mut queue = inner.queue.lock().unwrap();
@@ -277,7 +283,7 @@ impl<T> Pool<T> {
         verif::point("unmanaged.get.permit");
         #[cfg(deadpool_verif)]
         verif::lock_point("unmanaged.get.pop.lock", || {
-            verif::is_locked(&inner.queue)
+            verif::is_locked(inner.queue.raw())
         });
         let obj = {
             let mut queue = inner.queue.lock().unwrap();
@@ -363,7 +369,7 @@ impl<T> Pool<T> {
         verif::point("unmanaged._add.post_size");
         #[cfg(deadpool_verif)]
         verif::lock_point("unmanaged._add.lock", || {
-            verif::is_locked(&self.inner.queue)
+            verif::is_locked(self.inner.queue.raw())
         });
         {
             let mut queue = self.inner.queue.lock().unwrap();
@@ -526,7 +532,7 @@ impl<T> PoolInner<T> {
     /// Removes all the [`Object`]s which are currently part of this [`Pool`].
     fn clear(&self) {
         #[cfg(deadpool_verif)]
-        verif::lock_point("unmanaged.clear.lock", || verif::is_locked(&self.queue));
+        verif::lock_point("unmanaged.clear.lock", || verif::is_locked(self.queue.raw()));
         let mut queue = self.queue.lock().unwrap();
         let _ = self.size.fetch_sub(queue.len(), Ordering::Relaxed);
         let _ = self
